@@ -83,6 +83,10 @@ type Mutator struct {
 	// NoContracts drops code/storage/suicide/create-account operations (C08 is about validators
 	// and delegator accounts; contract storage is C09/C10 matter).
 	NoContracts bool
+	// DelegationWeight, NDelegators: staking-focus mode (delegations drawn more often, from few
+	// delegators, so that one delegator's list sees add / remove / add sequences).
+	DelegationWeight int
+	NDelegators      int
 	// Hot, HotSlots, StorageWeight: contract-focus mode (see pickContractish / case 5 of Gen).
 	Hot           []common.Address
 	HotSlots      int
@@ -199,6 +203,9 @@ func (m *Mutator) Gen(st *state.StateDB) *Op {
 	}
 	if m.StorageWeight > 1 {
 		weights[5] *= m.StorageWeight
+	}
+	if m.DelegationWeight > 1 {
+		weights[14] *= m.DelegationWeight
 	}
 	if m.NoContracts {
 		weights[4], weights[5], weights[6], weights[7] = 0, 0, 0, 0
@@ -608,7 +615,11 @@ func (m *Mutator) genUpdateDelegation(st *state.StateDB) *Op {
 	if val == nil {
 		return noop("deleg-none")
 	}
-	d := delegators[c.Intn("delegator", len(delegators))]
+	nd := len(delegators)
+	if m.NDelegators > 0 && m.NDelegators < nd {
+		nd = m.NDelegators
+	}
+	d := delegators[c.Intn("delegator", nd)]
 	sub, all := false, false
 	var w *big.Int
 	if df := val.GetDelegationFrom(d); df != nil && c.Chance("sub", 1, 2) {
